@@ -12,7 +12,7 @@ INST = lambda c: ("inst", c)
 
 # Type invariants of instance fields (assumed on read, proved on every write: obligations TY).
 FIELD_TYPES = {
-    ("_Future", "_me_done_callbacks"): ("list", "callable"),
+    ("_Future", "_me_done_callbacks"): ("list", "callable", "owned"),
     ("_Future", "_me_lock"): "rlock",
     ("MapFuture", "_map_fn"): "callable",
     ("MapFuture", "_error_fn"): OPT("callable"),
